@@ -23,6 +23,7 @@ func main() {
 	replay := flag.String("replay", "", "violation report to re-evaluate")
 	dump := flag.Bool("dump", false, "dump rule facts for the function specs given as arguments")
 	callers := flag.Bool("callers", false, "print non-test callers of the function specs given as arguments")
+	briefN := flag.Int("brief", 0, "with -dump: omit logging/event calls and error returns, truncate lines to N chars")
 	warm := flag.Bool("warm", false, "load the workspace once (warms the build cache) and exit")
 	flag.Parse()
 	if t := os.Getenv("VERIF_TIER"); t != "" && (t == "quick" || t == "thorough") {
@@ -65,6 +66,7 @@ func main() {
 		return
 	}
 	if *dump {
+		ir.Brief = *briefN
 		for _, spec := range flag.Args() {
 			fn := P.Func(spec)
 			if fn == nil {
